@@ -9,7 +9,7 @@
 (*   ev.big       = 1 iff some value did not fit TLC's integers            *)
 (* Booleans are 0/1.  Index arguments are (i, top): top = 1 means 2^64-i.  *)
 (***************************************************************************)
-EXTENDS Forms
+EXTENDS Generator
 
 CONSTANT PROP      \* the property whose view of the events is judged ("ALL" = every conjunct)
 For(p) == PROP = "ALL" \/ PROP = p
@@ -268,11 +268,29 @@ EventOK_Ops(ev) ==
     [] ev.op = "OpBF" -> OpBFOK(ev)
     [] OTHER -> FALSE
 
+-----------------------------------------------------------------------------
+\* generator (C01, C08, C11)
+
+GenEvOK(ev) ==
+  LET k == ev.knots
+      p == ev.p
+      kv == KnotsValid(k)
+      match == ev.route # 1 \/ ev.grid = Uniq(k)
+      valid == kv /\ Len(k) >= p + 1 /\ match
+      res == [i \in DOMAIN ev.res |-> SplOf(ev.res[i])]
+  IN /\ For("C01") => (valid => ev.out = "ok" /\ GenPost(k, p, res)
+                                /\ (Has(ev, "ggrid") => ev.ggrid = Uniq(k)))
+     /\ For("C11") => IF valid THEN ev.out = "ok" ELSE Threw(ev, "out")
+     /\ For("C08") => (kv /\ ~match => Threw(ev, "out"))
+     /\ For("C10") => (ev.out = "ok" => \A i \in DOMAIN res : SplValid(res[i]))
+     /\ For("C14") => (ev.out = "ok" /\ Has(ev, "grid_shared") => B(ev.grid_shared))
+
 SupOps == {"GridNew", "GridFind", "GridAt", "SupNew", "SupRead", "SupIdx", "SupBin", "SupTri"}
 SplOps == {"SplNew", "SplEval", "SplUn", "SplBin", "SplLin"}
 EventOK(ev) == /\ Sane(ev)
                /\ CASE ev.op \in SupOps -> EventOK_Sup(ev)
                     [] ev.op \in SplOps -> EventOK_Spl(ev)
                     [] ev.op \in {"OpApply", "OpBF"} -> EventOK_Ops(ev)
+                    [] ev.op = "Gen" -> GenEvOK(ev)
                     [] OTHER -> FALSE
 =============================================================================
